@@ -34,6 +34,7 @@ from liquid2 import is_template_string_token
 from liquid2 import is_token_type
 from liquid2.exceptions import LiquidSyntaxError
 from liquid2.exceptions import LiquidTypeError
+from liquid2.exceptions import LiquidValueError
 from liquid2.exceptions import UnknownFilterError
 from liquid2.expression import Expression
 from liquid2.limits import MAX_STR_INT
@@ -909,6 +910,10 @@ class Filter:
         except LiquidTypeError as err:
             err.token = self.token
             raise err
+        except (ValueError, ArithmeticError, LookupError, OSError) as err:
+            # A value the filter function did not anticipate. Infinity, an integer
+            # that does not fit a C type or bytes that are not text, for example.
+            raise LiquidValueError(f"{self.name}: {err}", token=self.token) from err
 
     async def evaluate_async(self, left: object, context: RenderContext) -> object:
         func = context.filter(self.name, token=self.token)
@@ -921,6 +926,8 @@ class Filter:
         except LiquidTypeError as err:
             err.token = self.token
             raise err
+        except (ValueError, ArithmeticError, LookupError, OSError) as err:
+            raise LiquidValueError(f"{self.name}: {err}", token=self.token) from err
 
     def evaluate_args(
         self, context: RenderContext
